@@ -1,7 +1,60 @@
 package main
 
+import (
+	"strings"
+
+	"golang.org/x/tools/go/ssa"
+)
+
 // installHooks wires the concurrency / footprint extensions into a function context.
 func (e *Engine) installHooks(fc *fnCtx) {}
 
-// runLemmas generates the obligations of the lemmas tagged with a property.
-func (e *Engine) runLemmas(prop string) {}
+// runLemmas generates one obligation per lemma: the lemma body must follow from
+// the prelude, the axioms and the lemmas stated before it.
+func (e *Engine) runLemmas(prop string) {
+	for i, l := range e.contracts.Lemmas {
+		if len(l.Props) > 0 {
+			ok := false
+			for _, p := range l.Props {
+				if p == prop {
+					ok = true
+				}
+			}
+			if !ok {
+				continue
+			}
+		}
+		name := "lemma." + l.Name
+		fc := &fnCtx{e: e, key: name, regionSort: map[string]string{}, closures: map[string]*closureInfo{}}
+		st := &State{env: map[ssa.Value]Val{}, names: map[string]Val{}, heap: map[string]string{}, loopVar: map[*ssa.BasicBlock]string{}, now: "0"}
+		sc := &specCtx{fc: fc, st: st, heap: st.heap, now: "0", vars: map[string]Val{}, params: map[string]Val{}, pkg: l.Pkg}
+		var goal string
+		func() {
+			defer func() {
+				if r := recover(); r != nil {
+					if se, ok := r.(specError); ok {
+						o := &Obligation{Name: name + ".resolves", Func: name, Kind: "contract.resolves", Status: "error", Note: se.msg, Clause: l.Text}
+						e.obls = append(e.obls, o)
+						e.oblByName[o.Name] = o
+						return
+					}
+					panic(r)
+				}
+			}()
+			v := sc.eval(l.E)
+			sc.want(v, SBool, l.E)
+			goal = v.T
+		}()
+		if goal == "" {
+			continue
+		}
+		// only earlier lemmas may be used
+		saved := e.lemmaLimit
+		e.lemmaLimit = i
+		e.axCache = nil
+		fc.emit(st, name, "lemma", l.Text, "", goal, nil)
+		e.lemmaLimit = saved
+		e.axCache = nil
+	}
+	_ = strings.TrimSpace
+}
